@@ -265,12 +265,20 @@ def walk_no_nested(node):
 def include_rules(chk, rule, module, rule_ids, what):
     """Re-run rules of another property's module on the same program and fold their findings into `rule`
     (used where one property's clause *is* another property's rule)."""
-    sub = Check(chk.prop, chk.prog, tier=chk.tier, seed=chk.seed)
-    try:
-        module.run(sub)
-    except AnalysisError as e:
-        if not any(r.id in rule_ids for r in sub.rules):
-            raise
+    # (the included module is run once per program and tier, whatever the number of includes that draw on it)
+    cache = chk.prog.__dict__.setdefault("_included_runs", {})
+    ckey = (module.__name__, chk.tier)
+    if ckey not in cache:
+        sub = Check(chk.prop, chk.prog, tier=chk.tier, seed=chk.seed)
+        err = None
+        try:
+            module.run(sub)
+        except AnalysisError as e:
+            err = e
+        cache[ckey] = (sub, err)
+    sub, err = cache[ckey]
+    if err is not None and not any(r.id in rule_ids for r in sub.rules):
+        raise err
     n = 0
     for key, msg in sub.undecided:
         if key.split(":")[0] in rule_ids and not any(k == "via-" + key for k, m in chk.undecided):
@@ -290,3 +298,53 @@ def include_rules(chk, rule, module, rule_ids, what):
                 g.witness = f.witness
     rule.ok("%s (%d obligations of %s re-checked)" % (what, n, "/".join(rule_ids)))
     return n
+
+
+MUTATORS = ("append", "appendleft", "add", "update", "setdefault", "pop", "popleft", "popitem", "clear", "insert", "remove", "discard", "extend", "move_to_end", "cache_clear", "__setitem__")
+
+
+def memory_between_calls(f):
+    """Ways in which a function can remember something from one call to the next without an instance to keep it on:
+    a caching decorator, global / nonlocal names, writes into module-level objects, attributes set on functions or
+    modules, a mutable default argument that is mutated.  -> list of (node, description)."""
+    import ast as _ast
+
+    out = []
+    for d in getattr(f.node, "decorator_list", ()):
+        txt = _ast.unparse(d)
+        if any(w in txt.lower() for w in ("cache", "memo")):
+            out.append((d, "is decorated with @%s: results are remembered and handed out again" % txt))
+    modnames = set(getattr(f.module, "assigns", {})) | set(getattr(f.module, "functions", {}))
+    local = {a.arg for a in f.node.args.posonlyargs + f.node.args.args + f.node.args.kwonlyargs}
+    if f.node.args.vararg:
+        local.add(f.node.args.vararg.arg)
+    if f.node.args.kwarg:
+        local.add(f.node.args.kwarg.arg)
+    for n in _ast.walk(f.node):
+        if isinstance(n, _ast.Name) and isinstance(n.ctx, _ast.Store):
+            local.add(n.id)
+    mutable_defaults = set()
+    a = f.node.args
+    pos = a.posonlyargs + a.args
+    for prm, dflt in list(zip(pos[len(pos) - len(a.defaults):], a.defaults)) + [(p_, d_) for p_, d_ in zip(a.kwonlyargs, a.kw_defaults) if d_ is not None]:
+        if isinstance(dflt, (_ast.Dict, _ast.List, _ast.Set)) or (isinstance(dflt, _ast.Call) and _ast.unparse(dflt.func) in ("dict", "list", "set", "collections.OrderedDict", "OrderedDict", "collections.defaultdict", "defaultdict")):
+            mutable_defaults.add(prm.arg)
+    for n in _ast.walk(f.node):
+        if n is not f.node and isinstance(n, (_ast.FunctionDef, _ast.AsyncFunctionDef, _ast.Lambda)):
+            continue
+        if isinstance(n, (_ast.Global, _ast.Nonlocal)):
+            out.append((n, "declares %s %s" % ("global" if isinstance(n, _ast.Global) else "nonlocal", ", ".join(n.names))))
+        base = None
+        if isinstance(n, _ast.Subscript) and isinstance(n.ctx, (_ast.Store, _ast.Del)) and isinstance(n.value, _ast.Name):
+            base, how = n.value.id, "writes into"
+        elif isinstance(n, _ast.Attribute) and isinstance(n.ctx, (_ast.Store, _ast.Del)) and isinstance(n.value, _ast.Name) and n.value.id != "self":
+            base, how = n.value.id, "sets an attribute of"
+        elif isinstance(n, _ast.Call) and isinstance(n.func, _ast.Attribute) and n.func.attr in MUTATORS and isinstance(n.func.value, _ast.Name):
+            base, how = n.func.value.id, "mutates"
+        if base is None:
+            continue
+        if base in mutable_defaults:
+            out.append((n, "%s its mutable default argument `%s`, which lives as long as the function" % (how, base)))
+        elif base in modnames and (base not in local or base in getattr(f.module, "functions", {})):
+            out.append((n, "%s the module-level `%s`" % (how, base)))
+    return out
